@@ -4,6 +4,7 @@ import (
 	"fmt"
 	"strings"
 	"testing"
+	"time"
 
 	"github.com/onheap/eval"
 	"pgregory.net/rapid"
@@ -330,7 +331,7 @@ func sweepC13(tier string, shard, shards int, emit func(C13Case)) {
 	// and the dump of a flat infix chain is nested as deep as the chain is long - it must still compile
 	depths := []int{1100, 1600}
 	if tier == "thorough" {
-		depths = []int{200, 999, 1000, 1001, 1100, 1450, 1600, 2100}
+		depths = []int{200, 999, 1000, 1001, 1100, 1450, 1600}
 	}
 	for _, d := range depths {
 		right := m.Op("+", m.Var("i0"), m.Var("i1"))
@@ -367,10 +368,11 @@ func sweepC13(tier string, shard, shards int, emit func(C13Case)) {
 
 var propC13 = Prop[C13Case]{
 	ID:    "C13",
-	Rule:  "typed random trees (prefix and infix sources) whose string literals, string-list elements and string constants are replaced by layout-sensitive ones (spaces, parentheses, brackets, semicolons, commas, backslashes, \\n \\r \\t, NBSP and other Unicode spaces, non-ASCII runes, U+FFFD, directive look-alikes, empty), variables renamed to identifiers with dots/underscores/non-ASCII letters, int literals at the extremes; x optimization subsets (3 per case quick, 16 thorough) x event mode. Oracle (round trip): Dump(e) compiles in prefix notation under the same names with optimizations off; dumping that program reproduces the text exactly; e and the recompiled program return the same outcome on 4 bindings; Dump is identical with ReportEvent/Debug. Sweep: wide calls, long list literals, and programs nested 1100 / 1600 levels deep (200..2100 thorough) - right-nested, left-nested through a flat infix chain, chains of not. Programs folded to a bare scalar are set aside and counted. Non-trivial = a literal with a character outside [A-Za-z0-9_.-], or an if; distinct by source + subsets",
+	Rule:  "typed random trees (prefix and infix sources) whose string literals, string-list elements and string constants are replaced by layout-sensitive ones (spaces, parentheses, brackets, semicolons, commas, backslashes, \\n \\r \\t, NBSP and other Unicode spaces, non-ASCII runes, U+FFFD, directive look-alikes, empty), variables renamed to identifiers with dots/underscores/non-ASCII letters, int literals at the extremes; x optimization subsets (3 per case quick, 16 thorough) x event mode. Oracle (round trip): Dump(e) compiles in prefix notation under the same names with optimizations off; dumping that program reproduces the text exactly; e and the recompiled program return the same outcome on 4 bindings; Dump is identical with ReportEvent/Debug. Sweep: wide calls, long list literals, and programs nested 1100 / 1600 levels deep (200..1600 thorough) - right-nested, left-nested through a flat infix chain, chains of not. Programs folded to a bare scalar are set aside and counted. Non-trivial = a literal with a character outside [A-Za-z0-9_.-], or an if; distinct by source + subsets",
 	Gen:   genC13,
 	Check: checkC13,
 	Sweep: sweepC13,
+	Limit: 15 * time.Minute, // (the engine's Dump needs tens of seconds on the deepest sweep programs, more on a loaded machine)
 }
 
 func TestC13(t *testing.T)       { Run(t, propC13) }
